@@ -23,8 +23,8 @@ ASSUMPTIONS = ["members added to a class after decoration and C-implemented desc
 
 COS = [(True, False), (False, True), (True, True)]
 NAMES = ["pub", "_prot", "__priv", "__len__", "__call__", "__eq__", "__getattr__", "__repr__", "__str__", "prop", "_prot_prop",
-         "static", "classm", "wo_prop", "__setattr__"]
-KIND = {"pub": "function", "other_pub": "function", "_prot": "function", "__priv": "function", "__len__": "function",
+         "static", "classm", "wo_prop", "__unm", "__setattr__"]
+KIND = {"__unm": "function", "pub": "function", "other_pub": "function", "_prot": "function", "__priv": "function", "__len__": "function",
         "__call__": "function", "__eq__": "function", "__getattr__": "function", "__repr__": "function", "__str__": "function",
         "prop": "property", "_prot_prop": "property", "wo_prop": "property", "ro_prop": "property", "ro_prop_setter": "property", "static": "staticmethod", "classm": "classmethod", "__setattr__": "function"}
 REALNAME = {"__priv": "_L0__priv"}
